@@ -86,6 +86,12 @@ def run_property(prop, repo, tier, seed, selftest=None, quiet=False):
         extra['call_sites_resolved'] = ctx._cg.n_resolved
     if ctx._reg is not None:
         extra['registrations'] = len(ctx._reg.all())
+    if ctx.project.renamed_back:
+        extra['anchors_renamed_back'] = [
+            '%s: %s -> %s' % r for r in ctx.project.renamed_back]
+        for r in ctx.project.renamed_back:
+            print('NOTE private definition %s:%s has the shape recorded for '
+                  '`%s` (spec/anchors.json): analysed under that name' % r)
     return report.emit(
         prop, tier, seed, results, ctx.project, t0,
         explanation=meta['decides'], not_decided=meta['not_decided'],
